@@ -134,7 +134,7 @@ def case_task(states):
                     if nel <= 2:
                         for r in range(rows if ctx is not None else 1):
                             bounds = [(float(m_[r].reshape(-1)[k]) - 12 * math.exp(float(l_[r].reshape(-1)[k])), float(m_[r].reshape(-1)[k]) + 12 * math.exp(float(l_[r].reshape(-1)[k]))) for k in range(nel)]
-                            f = (lambda q, r=r: d.log_prob(q.reshape(-1, *shape), ctx[r : r + 1].expand(q.shape[0], -1))) if ctx is not None else (lambda q: d.log_prob(q.reshape(-1, *shape)))
+                            f = (lambda q, r=r: d.log_prob(q.reshape(-1, *shape), ctx[r : r + 1].expand(q.shape[0], *ctx.shape[1:]))) if ctx is not None else (lambda q: d.log_prob(q.reshape(-1, *shape)))
                             tot = integrate(f, bounds, panels=24, order=12)
                             if abs(tot - 1.0) > 1e-5:
                                 fail("not_normalised", "%s%s: exp(log_prob) integrates to %.8f" % (name, shape, tot))
@@ -280,7 +280,8 @@ def main(run, replay=None):
         "rows, MG1, mixtures, kernel-density sizes, MADE mixtures x context rows, box priors); non-trivial = all but the "
         "one-dimensional single-component ones"
     )
-    res = T.run_tlc("Dist", T.cfg(invariants=["BernoulliNormalised", "MixtureWeightsSumToOne", "MG1VolumePreserving", "GaussianUnits", "KDEUnits"]), dump=True, name="dist", workers=4)
+    thorough = run.tier == "thorough"
+    res = T.run_tlc("Dist", T.cfg(constants={"Deep": "TRUE" if thorough else "FALSE"}, invariants=["BernoulliNormalised", "MixtureWeightsSumToOne", "MG1VolumePreserving", "GaussianUnits", "KDEUnits"]), dump=True, name="dist", workers=4)
     run.model_must_hold(res, "Dist")
     run.add_tlc(res, "Dist")
     states = [s for s in parse_dump(res.dump) if str(s["cls"]) != "Mixture"]
